@@ -419,7 +419,9 @@ fn judge(c: &Case) -> Vec<Fail> {
     }
     let m = MultiRef::new(hb.clone());
     let m2 = m.clone();
-    if !Arc::ptr_eq(&*m, &*m2) {
+    // (written against the value, not against Arc, so that a change of the pointer type is judged
+    // by C18 and does not merely stop this harness from compiling)
+    if !std::ptr::eq(&**m as *const HolderBare, &**m2 as *const HolderBare) {
         f.push(Fail { sig: "clone-copies".into(), detail: "clone of a MultiRef does not share the value".into() });
     }
     if **m != hb {
